@@ -87,6 +87,18 @@ def handle (ws : List String) : String :=
          | none => "ok none"
          | some coll => "ok " ++ " ".intercalate (coll.map fun (t, side) =>
              s!"{t.kind.toString}:{side}:" ++ ",".intercalate (t.ps.map fun v => toString v.toBits)))
+  | "trmodel" :: mn :: rest =>
+      -- card carrying a transformation: 12 numbers (O, B) first, then the card's parameters
+      (match rest.mapM parseFloat? with
+       | none => "err bad-number"
+       | some xs =>
+         match Motion.ofList (xs.take 12) with
+         | none => "err bad-motion"
+         | some m =>
+           match convertCardTr (1e-10 : Float) 1e-14 mn (xs.drop 12) m with
+           | none => "ok none"
+           | some coll => "ok " ++ " ".intercalate (coll.map fun (t, side) =>
+               s!"{t.kind.toString}:{side}:" ++ ",".intercalate (t.ps.map fun v => toString v.toBits)))
   | "macromodel" :: mn :: ps =>
       (match ps.mapM parseFloat? with
        | none => "err bad-number"
